@@ -17,7 +17,7 @@ contract(I + "Items.__init__",
          returns="implies(not is_np(items), self.items is items) and implies(is_np(items), type_is(self.items, Element)) and "
                  "implies(is_obj(additional), self.additional is additional) and "
                  "implies(additional is True, type_is(self.additional, Element)) and implies(additional is False, type_is(self.additional, Nothing))",
-         modifies=["self"], props=["C01", "C04", "C08"])
+         modifies=["self"], props=["C01", "C04", "C08", "C19"])
 
 contract(I + "Items.__getitem__", requires=WF + " and is_int(index) and index >= 0",
          returns=f"result is {ITEM}", ghost={"function": ITEM},
